@@ -93,7 +93,8 @@ class ResizableFile(object):
     def __init__(self, fileName, initialSize = 1024, resizeFactor = 2.0, defaultContent = None):
         self.__fileName = fileName
         self.__resizeFactor = resizeFactor
-        if not os.path.exists(fileName):
+        # a zero-length file is what a kill right after the creation leaves: treat it like a missing one
+        if not os.path.exists(fileName) or os.path.getsize(fileName) == 0:
             with open(fileName, 'wb') as f:
                 if defaultContent is not None:
                     f.write(defaultContent)
